@@ -135,6 +135,13 @@ func c09BridgeRun(ctx *core.RunCtx) {
 			ctx.Fail("result", cls+"|differs", "%s of a level-%d ciphertext with %s into a receiver %s (scratch poisoned: %d bytes) gives another ciphertext than a new evaluator with a new receiver: %s", name, in.Level(), keyName, d, nPoison, w)
 			return
 		}
+		// the result owns its metadata: its next use (a change of scale, of dimensions) is not a change of the input
+		out.Scale = rlwe.NewScale(3 + g.Next()%1000)
+		out.LogDimensions.Cols, out.IsBatched = out.LogDimensions.Cols+1, !out.IsBatched
+		if hashCt(in) != h {
+			ctx.Fail("inputs", cls+"|output-shares-metadata-with-input", "%s: changing the scale and dimensions of the result changed those of the ciphertext that was converted - they share one metadata object", name)
+			return
+		}
 	}
 	ctx.Nontrivial = true
 	ctx.Steps += int64(nsteps)
